@@ -46,6 +46,47 @@ var c15Changed string
 // c15Stalled is set when sender and receiver of a batch did not both return
 var c15Stalled bool
 
+// c15Tight: where the 256 check rows sit in the batch's row numbering.  The pinned code sends them as an extension
+// batch of their own, after the payload rows padded to a multiple of 8 (FALSE); an implementation may as well run one
+// pass over n+256 rows, the check rows directly after the payload rows (TRUE).  Measured once (c15Calibrate): the row
+// right after a 1-row payload is either padding (a flip in a selected column is accepted) or the first check row (abort).
+var c15Tight bool
+
+func c15CheckBase(n int) int {
+	if c15Tight {
+		return n
+	}
+	return (n + 7) / 8 * 8
+}
+
+func c15Calibrate(rng *rand.Rand) error {
+	for try := 0; try < 4; try++ {
+		np, err := newIKNPPair(rng, 1)
+		if err != nil {
+			return err
+		}
+		c15Pair, c15PairUses = np, 0
+		col := -1
+		for c := 0; c < 128; c++ {
+			if np.delta.Bit(c) == 1 {
+				col = c
+				break
+			}
+		}
+		if col < 0 {
+			continue
+		}
+		// global row 1 of a batch with one payload row
+		_, acc, _, err := c15Batch(rng, 1, []bool{true}, "payload", col, 1, 0, 0)
+		if err != nil {
+			return err
+		}
+		c15Tight = !acc
+		return nil
+	}
+	return nil
+}
+
 // c15Second, when set, adds a second flip in the same column to the next tampered batch
 var c15Second *struct {
 	where string
@@ -108,43 +149,41 @@ func c15Batch(rng *rand.Rand, n int, flags []bool, where string, col, row int, r
 	c15PairUses++
 	p := c15Pair
 	p.rIO.tamper, p.rIO.tamperLabel = nil, nil
-	byteRowsOf := func(rows int) int { return (rows + 7) / 8 }
 	switch where {
 	case "payload", "check":
-		// the matrix travels in chunks of cr rows (512 at the pinned commit; measured), one message per chunk,
-		// column-major inside a chunk
-		cr := iknpChunkRowsMemoOr512()
-		type flip struct{ msg, byteAt, bit int }
-		locate := func(where string, col, row int) flip {
-			msg := row / cr
-			rowsIn := n - cr*msg
-			if rowsIn > cr {
-				rowsIn = cr
-			}
-			br := byteRowsOf(rowsIn)
+		// the matrix travels column-major in one or more messages; a message of L bytes carries L/128 byte-rows, i.e.
+		// 8*L/128 rows of all 128 columns.  Rows are counted over the whole batch (payload rows first, the 256 check rows
+		// from c15CheckBase(n) on), so a flip is located while the messages pass, whatever their sizes are.
+		type flip struct{ g, col int }
+		global := func(where string, row int) int {
 			if where == "check" {
-				msg = (n + cr - 1) / cr
-				br = byteRowsOf(256)
-			} else {
-				row = row % cr
+				return c15CheckBase(n) + row
 			}
-			return flip{msg, col*br + row/8, row % 8}
+			return row
 		}
-		flips := []flip{locate(where, col, row)}
+		flips := []flip{{global(where, row), col}}
 		if c15Second != nil {
 			// a second flip in the same column (of the payload or of the check batch)
-			flips = append(flips, locate(c15Second.where, col, c15Second.row))
+			flips = append(flips, flip{global(c15Second.where, c15Second.row), col})
 			c15Second = nil
 		}
 		p.rIO.mu.Lock()
 		base := len(p.rIO.sentData)
 		p.rIO.mu.Unlock()
+		seen := 0 // rows of this batch that have passed (messages arrive in order)
+		next := base
 		p.rIO.tamper = func(idx int, b []byte) []byte {
+			if idx != next || len(b)%128 != 0 {
+				return b
+			}
+			next++
+			br := len(b) / 128
 			for _, f := range flips {
-				if idx == base+f.msg && f.byteAt < len(b) {
-					b[f.byteAt] ^= 1 << uint(f.bit)
+				if f.g >= seen && f.g < seen+8*br {
+					b[f.col*br+(f.g-seen)/8] ^= 1 << uint((f.g-seen)%8)
 				}
 			}
+			seen += 8 * br
 			return b
 		}
 	case "response":
@@ -238,10 +277,10 @@ func c15Main(args []string) error {
 	if len(args) > 3 {
 		fmt.Sscan(args[3], &percent)
 	}
-	if _, err := iknpChunkRows(); err != nil {
+	rng := rand.New(rand.NewSource(seed()*29996224275833 + 15))
+	if err := c15Calibrate(rng); err != nil {
 		return err
 	}
-	rng := rand.New(rand.NewSource(seed()*29996224275833 + 15))
 	idx := 0
 	nviol := 0
 	emit := func(res *Result, ev kosEv) {
@@ -307,8 +346,9 @@ func c15Main(args []string) error {
 						return err
 					}
 					dcol := int(p.delta.Bit(col))
+					// a payload-side row beyond n is padding - unless the check rows follow the payload directly
 					used := 1
-					if where == "payload" && row >= n {
+					if where == "payload" && row >= n && !(c15Tight && row < n+256) {
 						used = 0
 					}
 					expectAbort := dcol == 1 && used == 1
